@@ -769,6 +769,10 @@ def _get_line_start_charnos(source: str) -> Sequence[int]:
     for line in re.findall(r"[^\r\n]*(?:\r\n|\r|\n)|[^\r\n]+", source):
         charnos.append(start)
         start += len(line)
+    if not source or source[-1] in "\r\n":
+        # A final line break is followed by one more, empty, line: nodes that are to be inserted
+        # after the last line of the source have that lineno
+        charnos.append(start)
     return tuple(charnos)
 
 
